@@ -346,7 +346,17 @@ class Body:
             m = HEADER_CONST_RE.match(h)
             body = m.group(2)
             # NAME: TYPE
-            idx = body.find(': ')
+            # `NAME: TYPE`; NAME may contain `<impl at f:1:2: 3:4>`, so split at depth 0
+            depth = 0
+            idx = -1
+            for k, c in enumerate(body):
+                if c == '<':
+                    depth += 1
+                elif c == '>' and not (k > 0 and body[k - 1] in '-='):
+                    depth -= 1
+                elif c == ':' and depth == 0 and body.startswith(': ', k):
+                    idx = k
+                    break
             self.raw_name = body[:idx]
             self.ret = body[idx + 2:]
             if 'promoted[' in self.raw_name:
